@@ -437,6 +437,7 @@ class Impl:
         self.fp.clear()
         self.kern = SimKernel(btime)
         self.objs = []
+        self.cms = {}
         self.log = []
         self.render_stat()
 
@@ -482,6 +483,20 @@ class Impl:
                 return {"kind": "obj", "i": len(self.objs) - 1}
             if k == "is_running":
                 return {"kind": "bool", "v": bool(self._obj(op["i"]).is_running())}
+            if k == "enter":
+                # `with p.oneshot():` entered on object i; left by a later `leave` (or never). The identity
+                # machine has no notion of oneshot: C16 says it changes speed, never answers, so the model
+                # treats both ops as the identity and every later call is compared as usual.
+                cm = self._obj(op["i"]).oneshot()
+                cm.__enter__()
+                self.cms.setdefault(op["i"], []).append(cm)
+                return {"kind": "unit"}
+            if k == "leave":
+                self._obj(op["i"])
+                stack = self.cms.get(op["i"]) or []
+                if stack:
+                    stack.pop().__exit__(None, None, None)
+                return {"kind": "unit"}
             if k == "signal":
                 p = self._obj(op["i"])
                 m = op["m"]
@@ -608,7 +623,7 @@ def run_histories(ctx, impl, hists, driver_file=None):
     lines = []
     for h in hists:
         lines.append({"op": "reset", "btime": h["btime"]})
-        lines.extend(h["ops"])
+        lines.extend(o for o in h["ops"] if o["op"] not in ONESHOT_OPS)
         lines.append({"op": "pairs"})
     outs = ctx.driver(driver_file).batch(lines)
     res = []
@@ -618,6 +633,13 @@ def run_histories(ctx, impl, hists, driver_file=None):
         impl.reset(h["btime"])
         rows = []
         for o in h["ops"]:
+            if o["op"] in ONESHOT_OPS:
+                # model: identity (no output, no effect, no state change)
+                im, effs = impl.do(o)
+                if im.get("exc") == "badCall":
+                    im = {"kind": "unit"}
+                rows.append((o, im, [norm_eff(e) for e in effs], {"kind": "unit"}, [], {}))
+                continue
             m = outs[i]
             i += 1
             if "bad" in m:
@@ -646,7 +668,17 @@ def validation_drift(op, im, ie, mo, me, sp):
 def first_problem(result, prop, drift=None):
     """('spec'|'model', step index or None, impl, model, spec, note) for the first disagreement, else None"""
     sticky = {}
+    depth = {}
     for n, (o, im, ie, mo, me, sp) in enumerate(result["rows"]):
+        if o["op"] == "enter":
+            depth[o["i"]] = depth.get(o["i"], 0) + 1
+        elif o["op"] == "leave":
+            depth[o["i"]] = max(0, depth.get(o["i"], 0) - 1)
+        if o["op"] == "ppid" and depth.get(o["i"], 0) > 0 and not ie and not me:
+            # inside a oneshot() block ppid() is memoised by design (C16: the value of the first read in the block),
+            # so a repeated call may answer from the cache instead of raising NoSuchProcess; it is a query, not a
+            # signal/setter: C01 only requires that it reaches nothing
+            continue
         why = spec_violation(o, im, ie, sp, prop)
         if why is None and o["op"] == "is_running" and im.get("kind") == "bool" and prop in ("C02", None):
             if im["v"] and sticky.get(o["i"]) is False:
@@ -681,6 +713,7 @@ def first_problem(result, prop, drift=None):
 # ------------------------------------------------------------------------------ generators
 
 PIDS = [5, 7, 9]
+ONESHOT_OPS = ("enter", "leave")
 SIG_METHODS = ["suspend", "resume", "terminate", "kill"]
 
 
@@ -874,6 +907,34 @@ def gen_history(rng, family, clk):
         for _ in range(rng.randrange(2, 8)):
             i = rng.randrange(P.nobj)
             P.effect_call(i) if rng.random() < 0.7 else P.query(i)
+    elif family == "oneshot_reuse":
+        # seeded C01-1: the PID is recycled while a oneshot() block is open on the object, after a call in that
+        # block already ran the reuse guard on the live process; nothing inside the block may be served from a cache
+        P.ev(op="spawn", pid=p).ev(op="new", pid=p)
+        P.ev(op="enter", i=0)
+        for _ in range(rng.randrange(0, 3)):
+            r = rng.random()
+            if r < 0.4:
+                P.effect_call(0)
+            elif r < 0.7:
+                P.ev(op="ppid", i=0)
+            else:
+                P.query(0)
+        if rng.random() < 0.3:
+            P.ev(op="exit", pid=p)
+        P.ev(op="reap", pid=p)
+        if rng.random() < 0.3:
+            P.query(0)
+        P.tick()
+        P.ev(op="spawn", pid=p)
+        if rng.random() < 0.3:
+            P.ev(op="exit", pid=p)          # reuse by a zombie
+        for _ in range(rng.randrange(1, 4)):
+            P.effect_call(0)
+        if rng.random() < 0.5:
+            P.ev(op="leave", i=0)
+            P.effect_call(0)
+        P.ev(op="is_running", i=0)
     elif family == "btime0":
         # outside the hypothesis btime != 0: model correspondence only
         P = Plan(rng, 0, clk)
@@ -902,11 +963,35 @@ def gen_history(rng, family, clk):
             elif P.nobj:
                 i = rng.randrange(P.nobj)
                 P.effect_call(i) if rng.random() < 0.5 else P.query(i)
-    return P.hist(family)
+    return sprinkle_oneshot(rng, P.hist(family))
+
+
+def sprinkle_oneshot(rng, h):
+    """with probability 1/3 open a oneshot() block on some object somewhere after its creation and close it
+    later (or never): no answer and no effect may change (the model ignores both ops)"""
+    if rng.random() >= 1 / 3:
+        return h
+    ops = h["ops"]
+    k = SimKernel(1)
+    born = []                       # index in ops after which object j exists
+    for n, o in enumerate(ops):
+        if o["op"] in KERNEL_OPS:
+            k.apply(o)
+        elif o["op"] == "new" and o["pid"] >= 0 and o["pid"] in k.procs:
+            born.append(n)
+    if not born:
+        return h
+    j = rng.randrange(len(born))
+    a = rng.randrange(born[j] + 1, len(ops) + 1)
+    ops.insert(a, {"op": "enter", "i": j})
+    if rng.random() < 0.6:
+        b = rng.randrange(a + 1, len(ops) + 1)
+        ops.insert(b, {"op": "leave", "i": j})
+    return h
 
 
 FAMILIES = ["gone_path", "reuse_noquery", "reuse_zombie", "multi_recycle", "pid0", "clock_step", "coincidence",
-            "live", "mixed", "mixed", "btime0"]
+            "live", "mixed", "oneshot_reuse", "mixed", "btime0"]
 
 
 def well_indexed(combo):
@@ -960,6 +1045,24 @@ def exhaustive_two_pids(maxlen, btime=1000):
             yield {"btime": btime, "ops": list(combo), "family": "exhaustive2", "hyp": True}
 
 
+def exhaustive_oneshot(maxlen, btime=1000):
+    """all histories `spawn · Process · w` with |w| <= maxlen over {enter(0), leave(0), reap, spawn, kill(0), nice(0),
+    ppid(0), is_running(0)} on one PID: every placement of a PID recycling relative to the entry into / exit
+    from a oneshot() block and to the calls inside it"""
+    p = 5
+    alphabet = [
+        {"op": "enter", "i": 0}, {"op": "leave", "i": 0}, {"op": "reap", "pid": p}, {"op": "spawn", "pid": p},
+        {"op": "signal", "i": 0, "m": "kill", "sig": 0}, {"op": "setter", "i": 0, "k": "nice", "args": [3]},
+        {"op": "ppid", "i": 0}, {"op": "is_running", "i": 0},
+    ]
+    head = [{"op": "spawn", "pid": p}, {"op": "new", "pid": p}]
+    for n in range(1, maxlen + 1):
+        for combo in itertools.product(alphabet, repeat=n):
+            if not any(o["op"] == "enter" for o in combo):
+                continue
+            yield {"btime": btime, "ops": head + [dict(o) for o in combo], "family": "exhaustive_oneshot", "hyp": True}
+
+
 def features(h, result):
     """which clauses of the properties a history exercised"""
     f = set()
@@ -969,6 +1072,8 @@ def features(h, result):
             f.add("call_live" if sp["listed"] else "call_recycled_or_gone")
             if ie:
                 f.add("delivered")
+            if any(x[0]["op"] == "enter" for x in result["rows"]):
+                f.add("call_after_oneshot_enter")
             if im.get("exc") == "ValueError":
                 f.add("value_error")
         if k == "is_running" and "bool" in sp:
@@ -1025,6 +1130,7 @@ def correspond_for(ctx, res, prop, driver_file, n_quick, n_thorough):
         maxlen = 5 if ctx.tier == "quick" else 6
         hists.extend(exhaustive_histories(maxlen))
         hists.extend(exhaustive_two_pids(maxlen))
+        hists.extend(exhaustive_oneshot(4 if ctx.tier == "quick" else 5))
         total_lines = 0
         CH = 3000
         sampled = 0
@@ -1059,7 +1165,9 @@ def correspond_for(ctx, res, prop, driver_file, n_quick, n_thorough):
                           "nice(1), clock step, boot_time(), ==(0,1)} on one PID, and of length 3..%d over {spawn 5, spawn 7, "
                           "reap 5, Process(5), Process(7), terminate(0), is_running(1), ==(0,1)} on two PIDs (beyond length 3 "
                           "only those in which every call names an object that exists at that point — other calls never "
-                          "reach psutil); the random families are samples" % (len(hists) - n_rand, maxlen, maxlen))
+                          "reach psutil); all histories spawn·Process·w, |w| <= %d, over {enter oneshot(0), leave(0), reap, spawn, kill(0), "
+                          "nice(0), ppid(0), is_running(0)} containing an enter; the random families are samples"
+                          % (len(hists) - n_rand, maxlen, maxlen, 4 if ctx.tier == "quick" else 5))
         res.extra["driver_lines"] = total_lines
         res.extra["clock_ticks"] = impl.clk
     finally:
